@@ -109,7 +109,7 @@ def step (st : St) (op impl : List String) : St × String × String :=
     | .load c => let bs := normalise c; ({ st with static := true, table := fresh bs, final := bs }, "ok", v)
     | .reload c =>
       let bs := normalise c
-      match reload? st.table bs with
+      match reloadRaw? st.table c with
       | some t => ({ st with static := true, table := t, final := bs }, "ok", v)
       | none => ({ st with static := true, final := bs }, "panic:model", v)
     | .put k i => ({ st with static := false, etcd := etcdPut st.etcd k i }, "ok", v)
